@@ -103,7 +103,7 @@ def main():
                             if line not in have and root == "seeded":
                                 open(cp, "a").write(line + "\n")
         finally:
-            sh(f"git -C {REPO} checkout -- .")
+            sh(f"git -C {REPO} checkout -- . && git -C {REPO} clean -fdq -- src")
         matrix[sid] = row
         json.dump(matrix, open(mpath, "w"), indent=1)
         caught = [p for p in props if row.get(p, {}).get("violation")]
